@@ -53,8 +53,19 @@ THEOREMS = [
     "Jinns.Rar.gen_getBatch_inv",
     "Jinns.Rar.gen_run_active",
     "Jinns.Rar.add_passes_sideCheck",
+    "Jinns.Rar.holdsC17_model_step_single",
+    "Jinns.Rar.holdsC17_model_step_product",
+    "Jinns.Rar.holdsC17_model_step",
+    "Jinns.Rar.model_step_active",
+    "Jinns.Rar.holdsC17_model_draw",
+    "Jinns.Rar.holdsC17_model_history",
+    "Jinns.Rar.holdsC17_model_history_each",
+    "Jinns.Rar.holdsC17_model_history_step",
+    "Jinns.Rar.holdsC17_model_history_init",
+    "Jinns.Rar.holdsC17_model_summary",
+    "Jinns.Rar.runM_eq_runOps",
 ]
-LEAN_MODULES = ["JinnsProofs.C17"]
+LEAN_MODULES = ["JinnsProofs.C17", "JinnsProofs.C17Holds"]
 RULE = ("cases = (generator kind, allocation / initial / selected / candidate sizes, batch sizes, schedule, a history "
         "of get_batch draws and trigger_rar calls with a network shift per call | a jinns.solve run); every step is "
         "observed with its candidates, reported and exactly recomputed squared residuals, chosen indices, stores and "
